@@ -9,7 +9,9 @@ import (
 	"path/filepath"
 	"runtime"
 	"strconv"
+	"strings"
 	"sync"
+	"sync/atomic"
 	"time"
 
 	"github.com/tidwall/tile38/internal/log"
@@ -90,18 +92,27 @@ type Srv struct {
 	stopped  bool
 }
 
-// FreePort returns a currently free TCP port.
+var nextPort atomic.Int64
+
+func init() {
+	// spread concurrent harness processes over the port space
+	nextPort.Store(int64(20000 + (os.Getpid()%400)*100))
+}
+
+// FreePort returns a TCP port that is free now and that this process has not handed out before.
 func FreePort() int {
 	for {
-		ln, err := net.Listen("tcp", "127.0.0.1:0")
+		port := int(nextPort.Add(1))
+		if port > 60000 {
+			nextPort.Store(20000)
+			continue
+		}
+		ln, err := net.Listen("tcp", fmt.Sprintf("127.0.0.1:%d", port))
 		if err != nil {
 			continue
 		}
-		port := ln.Addr().(*net.TCPAddr).Port
 		ln.Close()
-		if port > 1024 {
-			return port
-		}
+		return port
 	}
 }
 
@@ -116,8 +127,27 @@ type Options struct {
 	NoAOF     bool
 }
 
-// Start starts a server in this process and waits until it answers.
+// Start starts a server in this process and waits until it answers. When the port was not
+// given and turns out to be taken by another process, another port is tried.
 func Start(o Options) (*Srv, error) {
+	if o.Port != 0 {
+		return start(o)
+	}
+	var err error
+	for try := 0; try < 6; try++ {
+		var s *Srv
+		o2 := o
+		if s, err = start(o2); err == nil {
+			return s, nil
+		}
+		if !strings.Contains(err.Error(), "address already in use") {
+			return nil, err
+		}
+	}
+	return nil, err
+}
+
+func start(o Options) (*Srv, error) {
 	if o.Dir == "" {
 		d, err := os.MkdirTemp("", "t38v-")
 		if err != nil {
@@ -183,6 +213,13 @@ func Start(o Options) (*Srv, error) {
 			return nil, fmt.Errorf("server on %s stuck loading", s.Addr)
 		}
 		time.Sleep(2 * time.Millisecond)
+	}
+	time.Sleep(3 * time.Millisecond)
+	select {
+	case err := <-s.done:
+		s.stopped = true
+		return nil, fmt.Errorf("server exited during start: %v", err)
+	default:
 	}
 	hookMu.RLock()
 	s.S = srvByPrt[o.Port]
